@@ -32,8 +32,17 @@ def f64(a):
 
 
 # ---------------------------------------------------------------------------
-def _band(L, cx, cy, px, py, eps, theta=0.0):
+def _band(L, cx, cy, px, py, eps, theta=0.0, centred=False):
+    """Half-width of the zone around the outline in which rounding may decide the answer.
+
+    Shapes defined by a centre (``centred``) asked about float64 / integer positions: the offsets ``p - c`` of two
+    float64 numbers carry one rounding of the *offset* (not of the coordinates), and everything after that is relative to
+    the offsets, so the zone scales with the reach |p - c| and the size L - not with the distance from the origin.
+    Polygons (absolute vertex coordinates enter the edge tests) and narrower query types (the arithmetic may be done
+    in that type, where the centre itself is rounded) keep the coordinate-magnitude term."""
     reach = np.maximum(L, np.hypot(px - cx, py - cy))
+    if centred and eps <= EPS64:
+        return 1e-9 * L + 64.0 * EPS64 * (reach + L) + 4.0 * EPS64 * abs(theta) * reach
     return (1e-9 * L + 64.0 * eps * (abs(cx) + abs(cy) + np.abs(px) + np.abs(py) + L)
             + 4.0 * EPS64 * abs(theta) * reach)
 
@@ -147,13 +156,13 @@ def shape_margin(region, px, py):
     px, py = f64(px), f64(py)
     if name == 'CirclePixelRegion':
         cx, cy, r = float(region.center.x), float(region.center.y), float(region.radius)
-        return margin_disk(cx, cy, r, px, py), _band(r, cx, cy, px, py, eps)
+        return margin_disk(cx, cy, r, px, py), _band(r, cx, cy, px, py, eps, centred=True)
     if name in ('EllipsePixelRegion', 'RectanglePixelRegion'):
         cx, cy = float(region.center.x), float(region.center.y)
         w, h, th = float(region.width), float(region.height), theta_rad(region.angle)
         f = margin_ellipse if name[0] == 'E' else margin_rect
         L = max(w, h)
-        return f(cx, cy, w, h, th, px, py), _band(L, cx, cy, px, py, eps, th)
+        return f(cx, cy, w, h, th, px, py), _band(L, cx, cy, px, py, eps, th, centred=True)
     if name == 'PolygonPixelRegion':
         vx, vy = f64(region.vertices.x), f64(region.vertices.y)
         L = max(np.ptp(vx), np.ptp(vy), 1e-300)
@@ -168,7 +177,7 @@ def shape_margin(region, px, py):
         cx, cy = float(region.center.x), float(region.center.y)
         ri, ro = float(region.inner_radius), float(region.outer_radius)
         m = np.minimum(margin_disk(cx, cy, ro, px, py), -margin_disk(cx, cy, ri, px, py))
-        return m, _band(ro, cx, cy, px, py, eps)
+        return m, _band(ro, cx, cy, px, py, eps, centred=True)
     if name in ('EllipseAnnulusPixelRegion', 'RectangleAnnulusPixelRegion'):
         cx, cy = float(region.center.x), float(region.center.y)
         th = theta_rad(region.angle)
@@ -177,7 +186,7 @@ def shape_margin(region, px, py):
         f = margin_ellipse if name[0] == 'E' else margin_rect
         m = np.minimum(f(cx, cy, ow, oh, th, px, py), -f(cx, cy, iw, ih, th, px, py))
         L = max(ow, oh)
-        return m, _band(L, cx, cy, px, py, eps, th)
+        return m, _band(L, cx, cy, px, py, eps, th, centred=True)
     if name in ('PointPixelRegion', 'TextPixelRegion', 'LinePixelRegion'):
         z = np.zeros(np.shape(px))
         return z - 1.0, z          # contains nothing, never ambiguous
